@@ -575,7 +575,7 @@ pub fn run(ctx: &mut Ctx) {
     ctx.exhaustive_space("all 1- and 2-byte leading sequences at each of the 8 probe positions", n_ex);
     if full3 {
         let mut n3 = 0u64;
-        for pos in [Pos::Tid, Pos::ListLen, Pos::Value] {
+        for pos in [Pos::Tid, Pos::ListLen, Pos::Value, Pos::GroupNo, Pos::BodyTag, Pos::Scaler, Pos::Status, Pos::Time] {
             for v in 0..(1u32 << 24) {
                 if !ctx.mine(v as u64) {
                     continue;
@@ -584,7 +584,7 @@ pub fn run(ctx: &mut Ctx) {
                 n3 += 1;
             }
         }
-        ctx.exhaustive_space("all 2^24 3-byte leading sequences at the tid, list-length and value positions", n3);
+        ctx.exhaustive_space("all 2^24 3-byte leading sequences at each of the 8 probe positions", n3);
     } else {
         let n = ctx.count(600_000, 6_000_000);
         for i in 0..n {
@@ -777,7 +777,7 @@ pub fn floors() -> Vec<String> {
 }
 
 pub const RULE: &str = "cases = (probe position, leading bytes): a message skeleton carries the bytes under test at the transaction-id, list-length, entry-value, group-no, body-tag, scaler, status or time position, completed deterministically \
-to the length the REFERENCE TLF decoder prescribes (capped at 72 KiB, beyond that the expected outcome is an error). Exhaustive: every 1- and 2-byte leading sequence at all 8 positions; thorough: all 2^24 3-byte sequences at the tid / list-length / value positions (quick: 600k sampled). \
+to the length the REFERENCE TLF decoder prescribes (capped at 72 KiB, beyond that the expected outcome is an error). Exhaustive: every 1- and 2-byte leading sequence at all 8 positions; thorough: all 2^24 3-byte sequences at all 8 positions (quick: 2.4 M sampled at the tid / list-length / value positions). \
 Directed: TLFs of up to 12 bytes with nibble values 2^32-1-k .. 2^32+k (k<=16), 2^36, 2^44-1, with 0..3 leading zero groups; every continuation byte with non-zero type bits; reserved first bytes; booleans all 256 bytes; \
 integers of width 1..9 x signed/unsigned x leading byte in {00,01,7f,80,fe,ff} at value / status / scaler / group-no / time positions; strings of every length 0..300 and up to 70000 with position-dependent content; nested list-typed values and both time encodings. \
 Oracle: value <=> value with equal content and variant, error <=> error (which error is not compared); the same bytes with a valid checksum go through complete::parse against the reference parser. \
